@@ -36,6 +36,18 @@ EXC_ZOO = [ValueError, RuntimeError, KeyError, ZeroDivisionError, CustomError, I
            BufferError, MemoryError, RecursionError]
 
 
+def _library_errors():
+  """the error classes the Pythia layer itself documents for policies (vizier/_src/pythia/pythia_errors.py): whatever
+  their place in the class hierarchy, raising one is 'the algorithm raises'"""
+  from vizier._src.pythia import pythia_errors as pe
+  out = []
+  for name in sorted(dir(pe)):
+    obj = getattr(pe, name)
+    if isinstance(obj, type) and issubclass(obj, BaseException) and obj.__module__ == pe.__name__:
+      out.append(obj)
+  return out
+
+
 def make_policy_factory(script):
   """script: dict with 'plan' = list of per-call behaviours for suggest: ('raise', ExcType) or ('deliver', delta)
   cycling; 'es' likewise with ('raise', Exc) or ('ok',)."""
@@ -82,6 +94,9 @@ def fault_stage(c, remote):
   (error or trials), no operation is left pending, a later call with a now-working algorithm hands out
   trials, the client's get_suggestions terminates, early stopping is consulted again after a failure."""
   from vizier._src.service import vizier_service, pythia_service, vizier_server, vizier_client
+  for e in _library_errors():
+    if e not in EXC_ZOO:
+      EXC_ZOO.append(e)
   from vizier._src.service import vizier_service_pb2 as vsp, study_pb2, custom_errors, resources
   from vizier._src.service import vizier_oss_pb2
   from vcheck import svcreal
